@@ -607,6 +607,9 @@ pub fn run_batch(prop: &str, seed: u64, start: u64, runs: u64, dir: &PathBuf, kn
                     } else {
                         res.foreign_deviations += 1;
                         res.counters.inc(&format!("foreign.{}", c.name));
+                        if std::env::var("SIM_DEBUG").is_ok() {
+                            println!("FOREIGN {} {} :: {}", c.name, c.detail, serde_json::to_string(&case).unwrap());
+                        }
                     }
                     // never reuse a process after a failed execution
                     break 'runs;
